@@ -44,6 +44,10 @@ class PoolMP(FakeMP):
         return type(item).__name__
 
 
+async def _echo(x):
+    return x
+
+
 def _canon(items):
     if items is None:
         return None
@@ -103,6 +107,8 @@ class Engine:
         import annet.api as api
         from annet import cli_args
         self.api, self.cli_args, self.F = api, cli_args, F
+        from annet.lib import do_async
+        self.do_async = do_async
 
     # ------------------------------------------------------------------ production callers through the pool
     def _run_production(self, ch):
@@ -226,11 +232,107 @@ class Engine:
                                                                "devices": len(world.inv), "vendor": world.vname},
                 "trace": trace}
 
+    # ------------------------------------------------------------------ a list that names an id more than once
+    def _run_repeated(self, ch):
+        """`multiset(ids delivered) == multiset(submitted)`: the same id submitted several times is that many tasks"""
+        P = self.P
+        n = 2 + ch.draw(7, "rep-n")
+        base = ["dev-%d.sim" % i for i in range(n)]
+        ids = list(base)
+        for _ in range(1 + ch.draw(3, "rep-extra")):
+            ids.insert(ch.draw(len(ids) + 1, "rep-pos"), base[ch.draw(n, "rep-which")])
+        par = 2 + ch.draw(4, "rep-parallel")
+        max_tasks = ch.pick([0, 1, 2, 25], "rep-max-tasks")
+        durs = {b: ch.pick([0.0, 0.1, 0.3, 1.0, 2.5], "rep-dur") for b in base}
+        cons = [ch.pick([0.0, 0.0, 0.5, 4.0], "rep-cons") for _ in ids]
+        big = ch.draw(4, "rep-big") == 0
+        salt = ch.draw(1000, "salt")
+        cfg = {"feeder_delay": [0.0, 0.001, 0.05, 0.6], "start_delay": [0.0, 0.3], "exit_delay": [0.0, 0.3, 1.2],
+               "stall_den": ch.pick([0, 6], "rep-stall"), "stall": [0.02, 0.4, 1.1], "cpus": 4}
+        sim = Sim(ch, max_steps=30000, strategy={"kind": "uniform"}, time_limit=sum(durs[i] for i in ids) + sum(cons) + 200.0)
+        mp = PoolMP(sim, cfg)
+        fos = seams.OsProxy(sim, __import__("os"))
+
+        def payload(dev_id):
+            return ("payload", dev_id, salt, "x" * (70000 if big else 0))
+
+        def f(dev_id):
+            sim.log("task", dev_id)
+            if durs[dev_id]:
+                sim.sleep(durs[dev_id])
+            else:
+                sim.yield_()
+            return payload(dev_id)
+        delivered, outcome = [], {}
+
+        def parent():
+            try:
+                p = P.Parallel(f).tune(parallel=par, max_tasks=max_tasks, task_timeout=1800)
+                for k, r in enumerate(p.irun(list(ids))):
+                    delivered.append((r.device_id, r.result, r.exc))
+                    sim.log("deliver", repr(r.device_id))
+                    if k < len(cons) and cons[k]:
+                        sim.sleep(cons[k])
+                outcome["tasks_done"] = p.tasks_done
+            except BaseException as e:  # pylint: disable=broad-except
+                if type(e).__name__ == "Killed":
+                    raise
+                outcome["exc"] = e
+        saved = seams.bind(P, sim, fake_mp=mp, fake_time=FakeTime(sim, __import__("time")), fake_os=fos, require=("mp", "time"))
+        try:
+            sim.spawn("parent", parent)
+            end = None
+            try:
+                sim.run()
+            except Deadlock as e:
+                end = ("deadlock", str(e))
+            except StepCap as e:
+                end = ("no-termination", str(e))
+            leftovers = [t.name for t in sim.unfinished()]
+            sim.kill_all()
+        finally:
+            seams.unbind(P, saved)
+
+        def V(clause, **detail):
+            detail.update(submitted=ids, parallel=par, max_tasks=max_tasks)
+            return {"clause": clause, "key": "repeated-ids", "detail": detail}
+        violation = None
+        got = sorted(d[0] for d in delivered)
+        if end is not None:
+            violation = V(end[0], why=end[1], leftovers=leftovers)
+        elif leftovers:
+            violation = V("process-left-running", leftovers=leftovers)
+        elif "exc" in outcome:
+            violation = V("unexpected-exception", exc=repr(outcome["exc"])[:300])
+        elif got != sorted(ids):
+            violation = V("lost-result" if len(got) < len(ids) else "duplicate-result", delivered=got)
+        elif any(e is not None or r != payload(i) for i, r, e in delivered):
+            violation = V("wrong-payload", delivered=[(i, repr(e)[:80]) for i, r, e in delivered if e is not None or r != payload(i)][:3])
+        elif outcome.get("tasks_done") != len(ids):
+            violation = V("tasks-done-mismatch", tasks_done=outcome.get("tasks_done"))
+        elif any(p.is_alive() for p in mp.processes):
+            violation = V("process-left-running", alive=[p.name for p in mp.processes if p.is_alive()])
+        elif fos.kills:
+            violation = V("spurious-timeout", kills=fos.kills[:4])
+        faults = dict(mp.fired)
+        if any(p._exitcode == 9 for p in mp.processes):
+            faults["retire"] = 1
+        h = hashlib.sha256(b"rep|")
+        for ev in sim.trace:
+            h.update(("%s|%s;" % (ev[2], ev[3])).encode())
+        return {"violation": violation, "nontrivial": True, "sig": int.from_bytes(h.digest()[:8], "big"), "sim_s": sim.now,
+                "steps": sim.steps, "faults": faults, "probes": {"id_submitted_more_than_once": 1}, "strategy": "repeated-ids",
+                "scenario": {"mode": "repeated ids", "ids": ids, "parallel": par, "max_tasks": max_tasks, "durations": durs,
+                             "consumer_delays": cons, "large_results": big, "delays": cfg},
+                "trace": sim.trace}
+
     # ------------------------------------------------------------------ one run
     def run(self, ch):
         P = self.P
         if ch.draw(12, "production-caller") == 0:
             return self._run_production(ch)
+        if ch.draw(16, "repeated-ids") == 0:
+            return self._run_repeated(ch)
         # --- swarm: which fault kinds are enabled in this run
         on = {k: ch.draw(2, "swarm-" + k) == 1 for k in
               ("raise", "net", "retire", "slow_consumer", "slow_callback", "feeder", "start", "exit", "stall", "cb_raise",
@@ -262,6 +364,8 @@ class Engine:
         cbdelay = [ch.pick([0.0, 0.2, 1.5, 6.0], "cbdelay") if on["slow_callback"] else 0.0 for _ in range(n)]
         cbraise = set(i for i in range(n) if on["cb_raise"] and cbmode != "none" and ch.draw(6, "cbraise") == 0)
         as_gen = ch.draw(4, "f-gen") == 0
+        # tasks that run a coroutine to completion in the worker, the way annet's fetchers do (annet.lib.do_async)
+        async_task = ch.draw(4, "task-uses-asyncio") == 0
         cfg = {
             "feeder_delay": [0.0, 0.0, 0.001, 0.05, 0.6] if on["feeder"] else [0.0],
             "start_delay": [0.0, 0.01, 0.3, 1.2] if on["start"] else [0.0],
@@ -312,6 +416,10 @@ class Engine:
             i = idx_of[repr(dev_id)]
             k = calls[i] = calls.get(i, 0) + 1
             sim.log("task", i, k)
+            if async_task and (i + salt) % 2 == 0:
+                fire(probes, "task_ran_coroutine_in_worker")
+                if self.do_async(_echo(i)) != i:
+                    raise HarnessError("do_async lost its value")
             if durs[i]:
                 sim.sleep(durs[i])
             else:
@@ -450,7 +558,7 @@ class Engine:
                     "ids": ["int", "str", "path-tuple", "long-path-tuple"][idkind], "durations": durs,
                     "raising": sorted(raising), "unpicklable_results": sorted(unpick), "transient": transient, "nested_net_exc": nested, "tolerate_fails": tolerate,
                     "api": "irun" if use_irun else "run", "consumer_delays": cons, "callbacks": cbmode, "callback_delays": cbdelay,
-                    "callback_raises": sorted(cbraise), "task_returns_generator": as_gen, "delays": cfg, "strategy": strategy,
+                    "callback_raises": sorted(cbraise), "task_returns_generator": as_gen, "task_runs_coroutine": async_task, "delays": cfg, "strategy": strategy,
                     "swarm": {k: v for k, v in on.items()}}
         violation = self._oracle(end, leftovers, outcome, delivered, ids, n, par, raising, transient, net_retry, tolerate,
                                  use_irun, cbmode, cbraise, payload, mp, fos, multi, unpick)
